@@ -172,7 +172,10 @@ def tcheck [BEq α] (N M lw : Nat) (q : TSpec α) (e : TEv α) (o : TOut α) : L
             | some t => if o.empty && q.now ≥ t + lw then ["trans-not-exposed"] else []
             | none => []
   let afl := q.afLvl.getD e.afLevel
-  let v6 := if afl ≤ N && !o.af && !(occ + afl < N) then ["trans-af-optimistic"] else []
+  -- same known corner as for the plain FIFO (almostFull is inherited): level == depth before the first non-reset edge
+  let v6 := if afl ≤ N && !o.af && !(occ + afl < N) then
+              (if q.afLvl.isNone && afl == N then ["af-optimistic-level-eq-depth-before-first-push-edge"] else ["trans-af-optimistic"])
+            else []
   let ael := q.aeLvl.getD (e.aeLevel % M)
   let v7 := if !o.ae && !(ael < avail) then ["trans-ae-optimistic"] else []
   if e.rst then (vr ++ v3 ++ v6 ++ v7 ++ (if o.popSize > 0 then ["trans-pop-size-optimistic"] else []), { q with afLvl := none, aeLvl := none })
